@@ -45,13 +45,33 @@ def forced(rng, tier):
         p += [['sub', 0, 1], ['apply', 0], ['list', 0], ['adopt', nh], ['sub', 3, 2], ['list', 0], ['apply', 0], ['list', 0],
               ['reps', 0], ['apply', 0], ['list', 0]]
         out.append(p)
+    # repeated block with two parallel leaves whose ends are 1/8 … 1 apart at times around 10^5 (seeded change C06-m6: the latest
+    # leaf of a group chosen with a floating-point tolerance — `np.isclose` — so that a near-tie goes to the first listed leaf
+    # and the next copy starts before the latest leaf has ended)
+    for i in range(20 if tier == 'quick' else 300):
+        n = rng.choice([2, 3])
+        qa, qb = rng.sample(range(3), 2)
+        big = rng.choice([800000, 1600000, 4000000])
+        gap = rng.choice([1, 2, 4, 8])
+        p = [['new', 'f1'], ['new', f'f{n}']]
+        if rng.random() < 0.5:
+            p.append(['op', 0, 'Wait', [qa], 'M', f'f{big}', 0, 0, [], None])        # the block starts late
+            da, db = rng.choice([(8, 8 + gap), (16, 16 + gap)])
+        else:
+            da, db = big, big + gap                                               # the leaves themselves are long
+        p.append(['op', 1, 'Wait', [qa], 'M', f'f{da}', 0, 0, [], None])           # first listed, ends EARLIER
+        p.append(['op', 1, 'Wait', [qb], 'M', f'f{db}', 0, 0, [], None])           # latest by `gap`/8
+        if rng.random() < 0.5:
+            p.append(['op', 1, rng.choice(gates), [qa], 'M', None, 0, 0, [], [len([c for c in p if c[0] == 'op']) - 2, 'JS']])
+        p += [['sub', 0, 1], ['list', 0], ['apply', 0], ['list', 0]]
+        out.append(p)
     return out
 
 
 SPEC = streamcheck.StreamSpec(
     PROP, probes=['C06', 'C02m'],
     cfg=progs.GenConfig(static_durations=True, n_cmds=(6, 36), p_list=0.05, p_new=0.16, p_sub=0.16, p_apply=0.10, p_flatten=0.0, p_copy=0.0,
-                        reps=[1, 2, 2, 3], p_regrep=0.25, p_setreg=0.06),
+                        reps=[1, 2, 2, 3], p_regrep=0.25, p_setreg=0.06, p_huge=0.04),
     n_quick=1200, n_thorough=40000,
     nontrivial=nontrivial,
     pysem=dict(groups=[], effects=True),
